@@ -86,12 +86,16 @@ func splitArgs(s string) []string {
 	return out
 }
 
-// parseStrace extracts the file-system operations on paths inside dir. Temp names "<target>.<hex>" are
-// canonicalised to "<target>.tmp<N>" by first appearance. Read-only opens are not operations of the model.
-func parseStrace(logPath, dir, target string) ([]FsOp, error) {
+// parseStrace extracts the file-system operations on paths inside dir. With canonical=true temp names
+// "<target>.<suffix>" are renamed "<target>.tmp<N>" by first appearance (realNames maps them back); with
+// canonical=false the real base names are kept. A writable open is "create" when its flags guarantee a fresh empty
+// file (O_TRUNC, or O_CREAT|O_EXCL) and "open" (the model's OpenExisting: content kept) otherwise; the flags are
+// kept in the op. Read-only opens are not operations of the model.
+func parseStrace(logPath, dir, target string, canonical bool) (ops []FsOp, realNames map[string]string, err error) {
+	realNames = map[string]string{}
 	f, err := os.Open(logPath)
 	if err != nil {
-		return nil, err
+		return nil, nil, err
 	}
 	defer f.Close()
 	sc := bufio.NewScanner(f)
@@ -115,7 +119,7 @@ func parseStrace(logPath, dir, target string) ([]FsOp, error) {
 		calls = append(calls, rest)
 	}
 	if err := sc.Err(); err != nil {
-		return nil, err
+		return nil, nil, err
 	}
 	names := map[string]string{}
 	canon := func(p string) (string, bool) {
@@ -124,7 +128,8 @@ func parseStrace(logPath, dir, target string) ([]FsOp, error) {
 			return "", false
 		}
 		b := filepath.Base(p)
-		if b == target {
+		if b == target || !canonical {
+			realNames[b] = b
 			return b, true
 		}
 		if c, ok := names[b]; ok {
@@ -135,10 +140,10 @@ func parseStrace(logPath, dir, target string) ([]FsOp, error) {
 			c = fmt.Sprintf("%s.tmp%d", target, len(names))
 		}
 		names[b] = c
+		realNames[c] = b
 		return c, true
 	}
 	fds := map[int]string{}
-	var ops []FsOp
 	for _, c := range calls {
 		m := reCall.FindStringSubmatch(c)
 		if m == nil {
@@ -172,7 +177,11 @@ func parseStrace(logPath, dir, target string) ([]FsOp, error) {
 				continue
 			}
 			fds[ret] = n
-			ops = append(ops, FsOp{Kind: "create", A: n})
+			kind := "open"
+			if strings.Contains(flags, "O_TRUNC") || (strings.Contains(flags, "O_CREAT") && strings.Contains(flags, "O_EXCL")) {
+				kind = "create"
+			}
+			ops = append(ops, FsOp{Kind: kind, A: n, Flags: flags})
 		case "write", "pwrite64":
 			fd, ok := fdArg()
 			if !ok {
@@ -222,14 +231,14 @@ func parseStrace(logPath, dir, target string) ([]FsOp, error) {
 			}
 		}
 	}
-	return ops, nil
+	return ops, realNames, nil
 }
 
-// segments: the op list cut before every create.
+// segments: the op list cut before every writable open.
 func segments(ops []FsOp) [][]FsOp {
 	var out [][]FsOp
 	for _, o := range ops {
-		if o.Kind == "create" || len(out) == 0 {
+		if o.Kind == "create" || o.Kind == "open" || len(out) == 0 {
 			out = append(out, nil)
 		}
 		out[len(out)-1] = append(out[len(out)-1], o)
